@@ -298,3 +298,49 @@ def stray_writes_of(V, call_spec):
     first = L.vrt_stray_first()
     L.vrt_check_strays(0)
     return int(n), int(first)
+
+
+def callers_interfere(V, spec_a, spec_b, bound=2, max_exec=100000):
+    """Two complete kernel calls (vt.sani.Call objects, kernels declared `threadsafe` so that f2py releases the GIL) run as two
+    logical threads: explore every interleaving at the words both touch (within `bound` preemptions); each call must leave in its
+    own arrays what it leaves when it runs alone.  Returns (bad_schedules, explore_result)."""
+    blocks, arrays_all, outs = [], [], []
+    for sp in (spec_a, spec_b):
+        ints, dbls, floats_at, arrs = [], [], [], []
+        for a in sp.args:
+            if a[0] == "a":
+                arr = a[1].copy()
+                arrs.append((arr, a[2]))
+                ints.append(arr)
+            elif a[0] == "i":
+                ints.append(a[1])
+            else:
+                if a[0] == "f":
+                    floats_at.append(len(dbls))
+                dbls.append(a[1])
+        if len(ints) > 12 or len(dbls) > 8:
+            return None, None
+        blocks.append((sp.kernel, ints, dbls, tuple(floats_at)))
+        arrays_all += [x[0] for x in arrs]
+        outs += [x[0] for x in arrs]
+    init = [a.copy() for a in outs]
+    V.register(*arrays_all)
+
+    def prepare():
+        for a, b in zip(outs, init):
+            a[...] = b
+    alone = []
+    prepare()
+    for kern, ints, dbls, fl in blocks:
+        V.run(V.kernel(kern, ints, dbls=dbls, floats_at=fl), 1, [])
+    ref = tuple(a.tobytes() for a in outs)
+    A = V.kernel_args(*blocks[0])
+    B = V.kernel_args(*blocks[1])
+    call = V.two_callers(A, B)
+
+    def observe(ret):
+        return tuple(a.tobytes() for a in outs)
+    r = V.explore(prepare, call, observe, 2, bound, max_exec=max_exec, early_stop=lambda o: o != ref, prune=False)
+    bad = [sched for obs, sched in r["outcomes"].items() if obs != ref]
+    prepare()
+    return bad, r
